@@ -23,8 +23,9 @@ impl SimKey for String {
         match rng.below(10) {
             0..=5 => POOL[rng.below(POOL.len() as u64) as usize].to_string(),
             6 if big => {
-                // a key that makes one WAL record larger than the 8 KiB BufWriter
-                let n = 9000 + rng.below(200) as usize;
+                // a key that makes one WAL record larger than 8 KiB; sometimes larger than 64 KiB
+                // (beyond any 16-bit length somebody might assume for keys)
+                let n = if rng.chance(1, 3) { 65_536 + rng.below(5000) as usize } else { 9000 + rng.below(200) as usize };
                 let c = (b'a' + rng.below(26) as u8) as char;
                 std::iter::repeat(c).take(n).collect()
             }
@@ -45,7 +46,10 @@ impl SimKey for Vec<u8> {
             2 => vec![0xff],
             3 => vec![0, 0],
             4 => vec![0xc3, 0x28], // invalid UTF-8
-            5 if big => vec![rng.below(256) as u8; 9000 + rng.below(100) as usize],
+            5 if big => {
+                let n = if rng.chance(1, 3) { 65_536 + rng.below(5000) as usize } else { 9000 + rng.below(100) as usize };
+                vec![rng.below(256) as u8; n]
+            }
             _ => {
                 let n = 1 + rng.below(10) as usize;
                 rng.bytes(n)
